@@ -53,7 +53,10 @@ def findField (n : List Char) : Nat → List Mdl → Option Fld
 def overrideOne (find : List Char → Option Fld) (f : Fld) : Option Fld :=
   if pending f then (find (f.orig.getD [])).map (fun o => { o with required := true }) else some f
 
-/-- the members of a class model after the pass -/
+/-- the members of a class model after the pass — as a list in declaration order; the real pass
+re-inserts a copy at the member's index in the pre-pass list, so that a copy can end up behind later
+members when earlier placeholders were dropped: the model (and the correspondence campaign) is about
+WHICH members remain, not about their positions -/
 def overrideFields (find : List Char → Option Fld) (fs : List Fld) : List Fld :=
   fs.filterMap (overrideOne find)
 
